@@ -734,6 +734,13 @@ def termination(ctx):
                         break
             if cand:
                 drv = body.blocks[cand[0]]["term"]["func"]["full"]
+            if drv is None and cand0 and "array::IntoIter<" in body.blocks[cand0[0]]["term"]["func"]["full"] and not any(p.end[0] == "back" and p.end[1] == h for p in ctx.paths(key)) \
+                    and not any(e.kind == "call" and e.bb == cand0[0] for p in ctx.paths(key) for e in p.events):
+                # `for x in [a, b, c]`: the evaluator walked the body once per element of the array literal (no back edge, no symbolic next()):
+                # the number of iterations is the literal's length
+                ctx.ok("TERM", key, "loop[array-literal]%s" % ("" if list(sorted(body.loops)).index(h) == 0 else "#%d" % (sorted(body.loops).index(h) + 1)),
+                       "a loop over an array literal, walked element by element", body.span_of(h))
+                continue
             if drv is not None:
                 m = re.match(r"<(.*) as std::iter::Iterator>::next", drv)
                 self_ty = m.group(1) if m else ("std::ops::Range<usize>" if "for std::ops::Range<" in drv else drv)
